@@ -56,6 +56,7 @@ func runCase(phase string, i int) worker.Result {
 		APIs:       []string{"Copy", "CopyGraph", "CopyGraph", "ExtendedCopyGraph"},
 		MaxDelay:   1500 * time.Microsecond,
 		RaceWriter: true,
+		Trees:      true,
 	})
 	if c.API == "ExtendedCopyGraph" && c.SrcKind == "remote" {
 		c.SrcKind = "memory"
@@ -63,6 +64,9 @@ func runCase(phase string, i int) worker.Result {
 	c.Conc = []int{0, 1, 2, 3, 4, 5, 6, 7, 8}[rng.IntN(9)]
 	if c.Delay == 0 {
 		c.Delay = 300 * time.Microsecond
+	}
+	if c.G.HasTrees() {
+		res.Count("cases_with_custom_FindSuccessors_over_tree_nodes", 1)
 	}
 	e, err := c.Setup(ctx)
 	if err != nil {
